@@ -463,7 +463,20 @@ func (r Rule) splitPos(path string) int {
 	if httpserver.CaseSensitivePath {
 		return strings.Index(path, r.SplitPath)
 	}
-	return strings.Index(strings.ToLower(path), strings.ToLower(r.SplitPath))
+	return strings.Index(asciiToLower(path), asciiToLower(r.SplitPath))
+}
+
+// asciiToLower lower-cases the ASCII letters of s and leaves every other
+// byte alone, so that an index into the result is an index into s
+// (strings.ToLower can change the length of a string).
+func asciiToLower(s string) string {
+	b := []byte(s)
+	for i, c := range b {
+		if 'A' <= c && c <= 'Z' {
+			b[i] = c + 'a' - 'A'
+		}
+	}
+	return string(b)
 }
 
 // AllowedPath checks if requestPath is not an ignored path.
